@@ -930,6 +930,6 @@ class Img(_Base):
 PROP = Property(
     id="C16",
     title="A fixed-resolution buffer equals nearest-pixel resampling through the links",
-    theorems=["C16.placeholder"],
+    theorems=["C16.rne_nearest", "C16.nearest_candidates", "C16.nearest_unique_off_ties", "C16.frb_pointwise", "C16.frb_accepted", "C16.frb_defined_iff", "C16.frb_answer_accepted", "C16.frb_indep_irrelevant_scalar", "C16.wildcard_key_exact", "C16.frb_indep_irrelevant_scalars", "C16.dimensions_correct", "C16.world_leaf_wf", "C16.w2p_node_wf", "C16.cache_step_sound", "C16.cache_sound", "C16.cache_sound_from", "C16.slice_to_bound_positions", "C16.selection_edited_in_place_stale", "C16.data_changed_in_place_stale", "C16.slice_to_bound_pinned_wrong"],
     families=[Single(), Seq(), Img()],
 )
